@@ -505,6 +505,12 @@ func configs(tier string) []cfg {
 		// a deferred node gets its first filter after its parent became ready AND changed again
 		{Name: "dsub/init-a1,b1/upd-a2(l=0),cre... then refilter(l=1)", Variant: "dsub", Init: init2, Hist: h2, Refs: []int{2}, RefsAfterHist: true, Mode: "S2", Bound: d},
 		{Name: "dclone>sub/init-a1/h3 then refilter(Null)", Variant: "dclone>sub", Init: init1, Hist: h3, Refs: []int{0}, RefsAfterHist: true, Mode: "S2", Bound: d},
+		// a relist that drops an object: the Delete it produces carries the cached (same) version
+		{Name: "fsub[l=1]/init-a1,b1/relist-drops-b", Variant: "fsub", F0: 2, Init: init2, Hist: []pop{{kind: "relist", list: []metav1.Object{a(1, "1")}}}, Mode: "S2", Bound: d},
+		{Name: "fclone[l=1]>fsub[name=a]/init-a1,b1/relist-drops-a", Variant: "fclone>fsub", F0: 2, F1: 4, Init: init2, Hist: []pop{{kind: "relist", list: []metav1.Object{b(1, "1")}}}, Mode: "S2", Bound: d},
+		// an object at resourceVersion 0 in the parent when the node syncs / is first filtered
+		{Name: "fsub[l=1]/init-a1,b0/upd-a2(l=0)", Variant: "fsub", F0: 2, Init: []metav1.Object{a(1, "1"), b(0, "1")}, Hist: h2[:1], Mode: "S2", Bound: d},
+		{Name: "dclone>sub/init-a1,b0/refilter(l=1)", Variant: "dclone>sub", Init: []metav1.Object{a(1, "1"), b(0, "1")}, Hist: h2[:1], Refs: []int{2}, Mode: "S2", Bound: d},
 		// a sibling subscription is closed while the history runs
 		{Name: "fsub[l=1]/sibling-closed/h3", Variant: "fsub", F0: 2, Init: init1, Hist: h3, Sibling: true, Mode: "S2", Bound: d},
 		{Name: "fclone[l=1]>sub/sibling-closed/h3", Variant: "fclone>sub", F0: 2, Init: init1, Hist: h3, Sibling: true, Mode: "S2", Bound: d},
@@ -555,8 +561,9 @@ func controllerScenarios(tier string) []runner.Sc {
 					}
 				}
 			} else if o.ReadySeen {
-				ok := o.ReadyList == ctl.Accepted(in.C.Filter, []metav1.Object{hx.Pod("ns", "a", "1", "l=1")}) ||
-					o.ReadyList == ctl.Accepted(in.C.Filter, []metav1.Object{hx.Pod("ns", "a", "1", "l=1"), hx.Pod("ns", "b", "2", "l=1")})
+				va, vb := fmt.Sprint(in.C.StartRV+1), fmt.Sprint(in.C.StartRV+2)
+				ok := o.ReadyList == ctl.Accepted(in.C.Filter, []metav1.Object{hx.Pod("ns", "a", va, "l=1")}) ||
+					o.ReadyList == ctl.Accepted(in.C.Filter, []metav1.Object{hx.Pod("ns", "a", va, "l=1"), hx.Pod("ns", "b", vb, "l=1")})
 				if !ok {
 					msgs = append(msgs, fmt.Sprintf("cache read at readiness is not a synced content | %s: controller List() right after Ready() returned %s", desc, o.ReadyList))
 				}
@@ -573,6 +580,8 @@ func controllerScenarios(tier string) []runner.Sc {
 	}
 	return []runner.Sc{
 		mk("first-list-ok", ctl.Cfg{}, false),
+		mk("first-list-holds-a-version-0-object", ctl.Cfg{StartRV: -1}, false),
+		mk("first-list-without-resourceVersion", ctl.Cfg{ListFaults: map[int]fakeapi.ListFault{1: {Kind: "norv"}}}, false),
 		mk("first-list-slow", ctl.Cfg{ListFaults: map[int]fakeapi.ListFault{1: {Latency: time.Second}}}, false),
 		mk("first-list-error", ctl.Cfg{ListFaults: map[int]fakeapi.ListFault{1: {Kind: "error"}}}, true),
 		mk("first-list-error+emptylist", ctl.Cfg{ListFaults: map[int]fakeapi.ListFault{1: {Kind: "error+list"}}}, true),
